@@ -55,7 +55,7 @@ pub fn main() {
                 continue;
             }
         }
-        if toks.first() == Some(&"inject") && ot.len() == 2 && ot[0] == "ok" && ot[1].starts_with('#') {
+        if matches!(toks.first(), Some(&"inject") | Some(&"x-w2d-inject")) && ot.len() == 2 && ot[0] == "ok" && ot[1].starts_with('#') {
             let _ = writeln!(out, "ok #*");
             continue;
         }
